@@ -697,21 +697,15 @@ class Watcher(object):
 
         The signal is sent to the process itself then to all the children
         """
-        children = None
         try:
             # getting the process children
             children = process.children(recursive=recursive)
-
-            # sending the signal to the process itself
-            self.send_signal(process.pid, signum)
-            self.notify_event("kill", {"process_pid": process.pid,
-                                       "time": time.time()})
         except NoSuchProcess:
             # already dead !
-            if children is None:
-                return
+            return
 
-        # now sending the same signal to all the children
+        # sending the signal to all the children first: they are looked up
+        # through the process, which has none left once it is dead
         for child_pid in children:
             try:
                 process.send_signal_child(child_pid, signum)
@@ -720,6 +714,15 @@ class Watcher(object):
             except NoSuchProcess:
                 # already dead !
                 pass
+
+        try:
+            # now sending the same signal to the process itself
+            self.send_signal(process.pid, signum)
+            self.notify_event("kill", {"process_pid": process.pid,
+                                       "time": time.time()})
+        except NoSuchProcess:
+            # already dead !
+            pass
 
     @gen.coroutine
     @util.debuglog
